@@ -11,7 +11,7 @@ NOOPS = [["status", "--porcelain"], ["log", "--oneline", "-3"], ["diff", "--stat
 
 class C14(C02):
     id = "C14"
-    families = ["commits", "commits", "partial", "amend", "stats_mix"]
+    families = ["commits", "commits", "partial", "amend", "stats_mix", "human_overwrites_ai", "human_overwrites_ai"]
     quick_runs, thorough_runs = 400, 6000
     quick_budget_s, thorough_budget_s = 170, 1800
     rule = ("one run = one commit-oriented history (plain commits, partial commits, amend) executed twice from identical "
